@@ -128,6 +128,7 @@ def main(argv=None):
     ap.add_argument("--replay", default=None)
     ap.add_argument("--jobs", type=int, default=int(os.environ.get("VMON_JOBS", "16")))
     ap.add_argument("--no-evidence", action="store_true")
+    ap.add_argument("--dump-lines", default=None, help="write the executed nutree lines (file -> [line]) as JSON (tools/uncovered.py)")
     args = ap.parse_args(argv)
     if args.seed is None:
         try:
@@ -267,6 +268,9 @@ def main(argv=None):
         with open(os.path.join(VERIF, "evidence", f"{prop}.json"), "w") as fp:
             json.dump(ev, fp, indent=1, default=repr)
             fp.write("\n")
+    if args.dump_lines:
+        with open(args.dump_lines, "w") as fp:
+            json.dump({f: sorted(v) for f, v in total.lines.items()}, fp)
     print("\n".join(lines))
     return rc
 
